@@ -347,7 +347,11 @@ func checkC04(c *Ctx) {
 			}
 			n++
 			got := an.Canon(ci.Common().Args[1])
-			R.Check(got == sprintf("github.com/go-asn1-ber/asn1-ber.(*Packet).Bytes($%d.packet().Packet)", respIdx), "C04-write", "(*ResponseWriter).Write: bytes written", c.pos(ci), "r.packet().Bytes() of the response parameter", "bytes handed to the stream are "+got)
+			want := sprintf("github.com/go-asn1-ber/asn1-ber.(*Packet).Bytes($%d.packet().Packet)", respIdx)
+			if emitterTakesBytes[write] {
+				want = sprintf("$%d", respIdx) // the emitter's parameter that Write fills with r.packet().Bytes()
+			}
+			R.Check(got == want, "C04-write", "(*ResponseWriter).Write: bytes written", c.pos(ci), "r.packet().Bytes() of the response parameter", "bytes handed to the stream are "+got)
 		}
 		if n != 1 {
 			R.Fail("C04-write", "(*ResponseWriter).Write: one write", c.P.Pos(write.Pos()), sprintf("%d writer.Write calls", n))
